@@ -6,7 +6,7 @@ import spec
 from spec import hex_of
 
 OBLIGATION_MODULES = ["PyModeS.Properties.C14"]
-TIE_MODULES = ['PyModeS.Tie.Basic', 'PyModeS.Tie.Bds61', 'PyModeS.Tie.Bds62', 'PyModeS.Tie.Bds08', 'PyModeS.Tie.Callsign', 'PyModeS.Tie.Icao', 'PyModeS.Tie.Surv', 'PyModeS.Tie.Adsb', 'PyModeS.Tie.C13Gen', 'PyModeS.Tie.C14Gen']
+TIE_MODULES = ['PyModeS.Tie.Basic', 'PyModeS.Tie.Bds61', 'PyModeS.Tie.Bds62', 'PyModeS.Tie.Bds08', 'PyModeS.Tie.Callsign', 'PyModeS.Tie.Icao', 'PyModeS.Tie.Surv', 'PyModeS.Tie.Adsb', 'PyModeS.Tie.C13Gen', 'PyModeS.Tie.C14Gen', 'PyModeS.Tie.TellGen']
 MAIN_THEOREM = "PyModeS.C14.*_guard / *_no_crash"
 RULE = ("every exported decoder x DF 0..31 x TC 0..31 x subtype x {zero, ones, random, random} payload x {28, 14} hex digits; "
         "outcome class (value / RuntimeError / other exception) compared with the model and with the documented (DF, TC, subtype) "
